@@ -41,7 +41,7 @@ type Shrinker interface {
 // Finaliser is optionally implemented by scenarios that need to add end-of-batch data to the
 // evidence coverage map (e.g. enumerated crash points).
 type Finaliser interface {
-	Finalise(cov map[string]any, outs []RunRecord)
+	Finalise(cov map[string]any, a *Agg)
 }
 
 // RunRecord is what a shard reports for one run.
